@@ -33,6 +33,15 @@ def gen_file(rng, tier):
     dec = 3 if rng.random() < 0.75 else rng.choice([1, 2, 4, 5, 6])
     wid = dec + 5
     long_names = rng.random() < 0.25        # atom names that fill their five columns
+    # values that fill their column completely (no blank between two numbers): a large box, a molecule far outside it
+    wide = rng.random() < 0.2
+
+    def fill(d_):
+        """A value that needs all `wid` characters with d_ decimals in it."""
+        int_chars = wid - d_ - 1
+        if rng.random() < 0.5 and int_chars >= 2:
+            return -round(rng.uniform(10 ** (int_chars - 2), 10 ** (int_chars - 1) - 1), d_)
+        return round(rng.uniform(10 ** (int_chars - 1), 10 ** int_chars - 1), d_)
     for k in range(n_kinds):
         size = rng.randint(1, 12)
         kinds.append((_rname(rng), [(rng.choice("CNOHSP") + rng.choice("ABGD") + "%03d" % (i + 1)) if long_names and rng.random() < 0.6
@@ -62,6 +71,8 @@ def gen_file(rng, tier):
             x, y, z = (round(rng.uniform(-5, 30), dec) for _ in range(3))
             if rng.random() < 0.04:
                 x, y, z = 0.0, 0.0, 0.0                    # an atom exactly at the origin
+            if wide and rng.random() < 0.3:
+                x, y, z = [fill(dec) if rng.random() < 0.6 else c_ for c_ in (x, y, z)]
             l = "%5d%-5s%5s%5d" % (resid % 100000, name, an, atomid % 100000) + "".join("%*.*f" % (wid, dec, c_) for c_ in (x, y, z))
             if vel:
                 v = tuple(round(rng.uniform(-3, 3), dec + 1) for _ in range(3))
@@ -70,6 +81,8 @@ def gen_file(rng, tier):
                     v = (0.0, 0.0, 0.0)                     # an atom at rest (frozen group, freshly inserted ion)
                 elif c < 0.1:
                     v = (0.0, v[1], 0.0)
+                elif wide and c < 0.3:
+                    v = tuple(fill(dec + 1) if rng.random() < 0.6 else c_ for c_ in v)
                 l += "".join("%*.*f" % (wid, dec + 1, c_) for c_ in v)
             lines.append(l)
             atomid += 1
